@@ -103,7 +103,7 @@ func (c *compressionPool) Decompress(dst *bytes.Buffer, src *bytes.Buffer, readM
 		return errorf(CodeInvalidArgument, "message size %d is larger than configured max %d", bytesRead+discardedBytes, readMaxBytes)
 	}
 	if err := c.putDecompressor(decompressor); err != nil {
-		return errorf(CodeUnknown, "recycle decompressor: %w", err)
+		return errorf(CodeUnknown, "recycle decompressor: %w", withoutEOF(err))
 	}
 	return nil
 }
